@@ -2191,6 +2191,10 @@ int cg_family_name_write(int fn, int B, int Fam,
         cgi_error( "Family path too long (%s, size %ld)", family_name, strlen(family_name) );
         return CG_ERROR;
     }
+    if (family_name[0] == '\0') {
+        cgi_error("Empty family name");
+        return CG_ERROR;
+    }
 
     cg = cgi_get_file(fn);
     if (cg == 0) return CG_ERROR;
@@ -2405,6 +2409,10 @@ int cg_node_family_name_write( const char* node_name, const char* family_name )
 
     if ( strlen(family_name) > (CGIO_MAX_NAME_LENGTH+1)*CG_MAX_GOTO_DEPTH ) {
         cgi_error( "Family path too long (%s, size %ld)", family_name, strlen(family_name) );
+        return CG_ERROR;
+    }
+    if (family_name[0] == '\0') {
+        cgi_error("Empty family name");
         return CG_ERROR;
     }
     if (cgi_check_mode(cg->filename, cg->mode, CG_MODE_WRITE)) return CG_ERROR;
@@ -16047,6 +16055,10 @@ int cg_famname_write(const char * family_name)
 
     /* Family Tree */
     /*if (cgi_check_strlen(family_name)) return CG_ERROR;*/
+    if (family_name[0] == '\0') {
+        cgi_error("Empty family name");
+        return CG_ERROR;
+    }
 
     famname = cgi_famname_address(CG_MODE_WRITE, &ier);
     if (famname==0) return ier;
@@ -16166,6 +16178,10 @@ int cg_multifam_write(const char *name, const char *family)
     if (cgi_check_strlen(family)) return CG_ERROR;
 #endif
 */
+    if (family[0] == '\0') {
+        cgi_error("Empty family name");
+        return CG_ERROR;
+    }
     famname = cgi_multfam_address(CG_MODE_WRITE, 0, name, &ier);
     if (famname == 0) return ier;
 
@@ -18403,6 +18419,10 @@ int cg_descriptor_write(const char * descr_name, const char * descr_text)
 
      /* verify input */
     if (cgi_check_strlen(descr_name)) return CG_ERROR;
+    if (descr_text[0] == '\0') {
+        cgi_error("Empty text for Descriptor_t '%s'", descr_name);
+        return CG_ERROR;
+    }
     if (cgi_check_mode(cg->filename, cg->mode, CG_MODE_WRITE)) return CG_ERROR;
 
     descr = cgi_descr_address(CG_MODE_WRITE, 0, descr_name, &ier);
